@@ -47,17 +47,17 @@ func (g *Group) mkr(p *Poly, raw *node) *G {
 	return &G{g: g, p: p, raw: raw}
 }
 
-func (g *Group) Name() string                             { return "symGroup(" + g.f.q.Text(16) + ")" }
-func (g *Group) Order() cardinal.Cardinal                 { return cardinal.NewFromBig(g.f.q) }
-func (g *Group) Contains(e *G) bool                       { return e != nil }
-func (g *Group) ElementSize() int                         { return pointSize }
-func (g *Group) OpIdentity() *G                           { return g.mk(polyConst(big.NewInt(0), g.f.q)) }
-func (g *Group) Zero() *G                                 { return g.OpIdentity() }
-func (g *Group) Generator() *G                            { return g.mk(polyConst(big.NewInt(1), g.f.q)) }
-func (g *Group) ScalarStructure() algebra.Structure[*F]   { return g.f }
-func (g *Group) ScalarField() algebra.PrimeField[*F]      { return g.f }
-func (g *Group) ScalarBaseOp(s *F) *G                     { return g.mkr(s.p, s.raw) }
-func (g *Group) ScalarBaseMul(s *F) *G                    { return g.mkr(s.p, s.raw) }
+func (g *Group) Name() string                           { return "symGroup(" + g.f.q.Text(16) + ")" }
+func (g *Group) Order() cardinal.Cardinal               { return cardinal.NewFromBig(g.f.q) }
+func (g *Group) Contains(e *G) bool                     { return e != nil }
+func (g *Group) ElementSize() int                       { return pointSize }
+func (g *Group) OpIdentity() *G                         { return g.mk(polyConst(big.NewInt(0), g.f.q)) }
+func (g *Group) Zero() *G                               { return g.OpIdentity() }
+func (g *Group) Generator() *G                          { return g.mk(polyConst(big.NewInt(1), g.f.q)) }
+func (g *Group) ScalarStructure() algebra.Structure[*F] { return g.f }
+func (g *Group) ScalarField() algebra.PrimeField[*F]    { return g.f }
+func (g *Group) ScalarBaseOp(s *F) *G                   { return g.mkr(s.p, s.raw) }
+func (g *Group) ScalarBaseMul(s *F) *G                  { return g.mkr(s.p, s.raw) }
 
 // FromDlog builds the element [s]G.
 func (g *Group) FromDlog(s *F) *G { return g.mkr(s.p, s.raw) }
@@ -110,9 +110,9 @@ func (g *Group) Hash(b []byte) (*G, error) {
 // ---- element
 
 func (e *G) Structure() algebra.Structure[*G] { return e.g }
-func (e *G) Clone() *G                         { return &G{g: e.g, p: e.p, raw: e.raw} }
-func (e *G) Dlog() *F                          { return e.g.f.mkr(e.p, e.raw) }
-func (e *G) IsSymbolic() bool                  { return !e.p.isConst() }
+func (e *G) Clone() *G                        { return &G{g: e.g, p: e.p, raw: e.raw} }
+func (e *G) Dlog() *F                         { return e.g.f.mkr(e.p, e.raw) }
+func (e *G) IsSymbolic() bool                 { return !e.p.isConst() }
 
 func (e *G) Op(o *G) *G              { return e.g.mkr(e.p.add(o.p, e.g.f.q), rawAdd(e.raw, o.raw)) }
 func (e *G) Add(o *G) *G             { return e.Op(o) }
@@ -122,10 +122,12 @@ func (e *G) Neg() *G                 { return e.g.mkr(e.p.neg(e.g.f.q), rawNeg(e
 func (e *G) TryNeg() (*G, error)     { return e.Neg(), nil }
 func (e *G) OpInv() *G               { return e.Neg() }
 func (e *G) TryOpInv() (*G, error)   { return e.Neg(), nil }
-func (e *G) Double() *G              { return e.g.mkr(e.p.scale(big.NewInt(2), e.g.f.q), rawScale(e.raw, big.NewInt(2))) }
-func (e *G) ScalarOp(s *F) *G        { return e.g.mkr(e.p.mul(s.p, e.g.f.q), rawMul(e.raw, s.raw)) }
-func (e *G) ScalarMul(s *F) *G       { return e.ScalarOp(s) }
-func (e *G) IsTorsionFree() bool     { return true }
+func (e *G) Double() *G {
+	return e.g.mkr(e.p.scale(big.NewInt(2), e.g.f.q), rawScale(e.raw, big.NewInt(2)))
+}
+func (e *G) ScalarOp(s *F) *G    { return e.g.mkr(e.p.mul(s.p, e.g.f.q), rawMul(e.raw, s.raw)) }
+func (e *G) ScalarMul(s *F) *G   { return e.ScalarOp(s) }
+func (e *G) IsTorsionFree() bool { return true }
 
 func (e *G) IsOpIdentity() bool { return e.g.run.decide(simplifyEqZ(e.p)) }
 func (e *G) IsZero() bool       { return e.IsOpIdentity() }
